@@ -733,11 +733,13 @@ def run_unit(unit, tier):
     if part == "typed":
         base = typed_shapes()[unit["shape"]]
         sites = [i for i, nd in enumerate(base) if nd["t"] != "rp" and nd.get("elems") is None]
-        placements = [None] + [(i, k) for i in sites for k in ("error", "cpe", "content")]
+        placements = [None] + [[(i, k)] for i in sites for k in ("error", "cpe", "content")]
+        # two failing components (what is recorded under a registry point both resolve to must not depend on which failed first)
+        placements += [[(i, k1), (j, k2)] for i, j in itertools.combinations(sites, 2) for k1 in ("error", "cpe") for k2 in ("error", "cpe")]
         for pl in placements:
             nodes = [dict(nd) for nd in base]
-            if pl is not None:
-                nodes[pl[0]]["out"] = pl[1]
+            for (i, k) in pl or []:
+                nodes[i]["out"] = k
             case = {"kind": "order+hash", "family": ["typed", unit["shape"]], "nodes": nodes}
             try:
                 vio, nexec, nout = check_order_hash(case, res)
